@@ -384,7 +384,13 @@ def run(pid, tier):
             if not okb:
                 m = re.search(r"(error(?:\[E\d+\])?: [^\n]*)\n\s*--> ([^\n:]*/out/([A-Za-z0-9_]+)\.rs):(\d+)", outb)
                 pan = re.search(r"panicked at ([^\n]*)\n([^\n]*)", outb)
-                if m and m.group(3) != "harnesses":
+                absurd = re.search(r"KGEN-ABSURD-CAPACITY definition (\w+) max_size (\d+)", outb)
+                if absurd:
+                    rp = os.path.join(rdir, "absurd-capacity-%s.txt" % absurd.group(1))
+                    open(rp, "w").write(outb[-3000:])
+                    v.violation(rp, "C13: the capacity computed for definition `%s` of the family (a datum added and removed before its close) is %s: "
+                                "no record type of that capacity compiles [build fact]" % (absurd.group(1), absurd.group(2)))
+                elif m and m.group(3) != "harnesses":
                     rp = os.path.join(rdir, "generated-%s.rs" % m.group(3))
                     sh(["cp", m.group(2), rp])
                     v.violation(rp, "C13: the module generated for definition `%s` is rejected by rustc: %s (line %s) [build fact]" %
